@@ -22,6 +22,7 @@ func emitContextCode(repo string) (string, error) {
 			"net/url.Values":                      "Lib.Values",
 			"net/http.Header":                     "Lib.Header",
 			"*net/http.Cookie":                    "Lib.Cookie",
+			"net/http.Cookie":                     "Lib.Cookie",
 		},
 		lib: map[string]string{
 			"strconv.Atoi":               "Lib.strconv_Atoi",
@@ -34,6 +35,8 @@ func emitContextCode(repo string) (string, error) {
 			"(net/url.Values).Get":       "Lib.Values_Get",
 			"(net/http.Header).Get":      "Lib.Header_Get",
 			"(*net/http.Request).Cookie": "Lib.Request_Cookie",
+			"net/url.QueryEscape":        "Lib.url_QueryEscape",
+			"(*net/http.Cookie).String":  "Lib.Cookie_String",
 		},
 		libFields: map[string]string{
 			"net/http.Request.URL":        "Lib.Request_URL",
@@ -41,7 +44,8 @@ func emitContextCode(repo string) (string, error) {
 			"net/http.Request.RemoteAddr": "Lib.Request_RemoteAddr",
 			"net/http.Cookie.Value":       "Lib.Cookie_Value",
 		},
-		prelude: "",
-		skip:    map[string]string{},
+		libFieldSet: map[string]string{"net/http.Cookie.Value": "Lib.Cookie_setValue"},
+		prelude:     "",
+		skip:        map[string]string{},
 	})
 }
